@@ -60,6 +60,44 @@ func GenWorld(t *rapid.T, chain uint64) *World {
 	return w
 }
 
+// BoundaryStakes constructs a stake vector for n >= 3 validators whose total T has the given residue mod 3 and that
+// contains a subset summing EXACTLY to floor(2T/3) (= threshold-1) and one summing exactly to floor(2T/3)+1 (= threshold):
+// the subset is chosen first (k members that split threshold-1), one member holds 1, the rest split T-threshold.
+func BoundaryStakes(t *rapid.T, n, residue int) []uint64 {
+	for {
+		T := uint64(rapid.IntRange(4, 400).Draw(t, "totalPower"))
+		T = T - T%3 + uint64(residue)
+		thr := 2*T/3 + 1
+		rest := T - thr // power outside the threshold subset
+		k := rapid.IntRange(1, n-2).Draw(t, "subsetSize")
+		others := n - k - 1
+		if thr-1 < uint64(k) || (others > 0 && rest < uint64(others)) || (others == 0 && rest != 0) {
+			continue
+		}
+		split := func(total uint64, parts int, label string) []uint64 {
+			out := make([]uint64, parts)
+			for i := range out {
+				out[i] = 1
+			}
+			left := total - uint64(parts)
+			for i := 0; i < parts-1 && left > 0; i++ {
+				d := uint64(rapid.Uint64Range(0, left).Draw(t, label))
+				out[i] += d
+				left -= d
+			}
+			out[parts-1] += left
+			return out
+		}
+		st := split(thr-1, k, "inSubset")
+		st = append(st, 1)
+		if others > 0 {
+			st = append(st, split(rest, others, "outside")...)
+		}
+		// shuffle so that the boundary subset is not always the first keys
+		return rapid.Permutation(st).Draw(t, "stakeOrder")
+	}
+}
+
 // ValSpecs / AcctSpecs for chainsim.BuildGenesis.
 func (w *World) ValSpecs() []chainsim.ValSpec {
 	var out []chainsim.ValSpec
